@@ -3,15 +3,17 @@ from __future__ import annotations
 
 import z3
 
-from .. import common, relmodel, sqlmodel, sqlprogs, templates
+from .. import common, relmodel, sqlmodel, sqlprogs, symproc, templates
 from ..driver import HOLDS, INCONCLUSIVE, UNDECIDED, VIOLATION
 from ..prog import Env, build, fmt, from_jsonable, ops_of, pyeval, sem_seq, shared_nonkey, to_jsonable
-from ..symx import Skip, explore
+from ..symx import Skip, explore, zint
 
 PID = "C11"
 LEVEL = "translation_validation"
 A, B, V, D = sqlprogs.A, sqlprogs.B, sqlprogs.V, sqlprogs.D
 TOTAL_X = ((A, True), (B, False), (V, True))
+PCOLS = ("a", "b", "c")  # the iteration-engine leaf P of the "processed" family (all key columns)
+PN = 3
 
 
 def _buried():
@@ -46,6 +48,14 @@ def shapes(tier, seed):
             out.append({"prog": node, "params": params, "cons": cons, "n": 2, "kind": "order"})
     for node, params, cons in _buried():
         out.append({"prog": node, "params": params, "cons": cons, "n": 2, "kind": "buried"})
+    # SQL-side trees downstream of a transfer, as Processor.process rebuilds them (every operation re-applied to the processed
+    # upstream, every SELECT marker rebuilt from its tree): the statement compiled from the *processed* tree is what a database sees
+    src = ("xfer", ("leaf", "P"), "sq")
+    labels = ("sort total", "sort b,-a", "dedup", "proj -c", "proj a", "slice s:e", "sel a>k", "calc d")
+    for depth in (2, 3):
+        for labs, node, p in templates.unary_sequences(src, {"P": PCOLS}, depth, "std", slice_hi=PN + 1, labels=labels):
+            if "sort total" in labs and (depth == 2 or "slice s:e" in labs):
+                out.append({"prog": node, "params": p.params, "cons": p.cons, "n": PN, "kind": "processed"})
     return out
 
 
@@ -94,6 +104,8 @@ def _must_refuse(prog):
 def run_shape(shape, tier):
     from lsst.daf.relation import RelationalAlgebraError
 
+    if shape["kind"] == "processed":
+        return run_processed(shape, tier)
     prog, n = shape["prog"], shape["n"]
     cache = {}
     info = {}
@@ -207,6 +219,117 @@ def run_shape(shape, tier):
     return out
 
 
+def _processed(prog, env):
+    """Build the tree, let a Processor (hooks evaluating for real on the symbolic database) process it, compile the processed tree
+    with the real engine and read the statement with the SQL model."""
+    tree = build(prog, env)
+    db = symproc.SymDB(env)
+    out = symproc.make_processor(db, []).process(tree)
+    ex = env.engines["sq"].to_executable(out)
+    return tree, out, ex, sqlprogs.strip_ignored(sqlmodel.select(ex, env.tables))
+
+
+def _processed_env(ctx, shape, model=None):
+    env = Env(symbolic=ctx is not None)
+    env.sql_mode = True
+    rows = [{c: (ctx.int(f"P.{c}{i}") if ctx is not None else int(model.get(f"P.{c}{i}", 0))) for c in PCOLS} for i in range(shape["n"])]
+    env.add_iter_leaf("P", PCOLS, rows, engine="it1")
+    env.tables["P"] = relmodel.unordered(env.tables["P"])  # whatever order the rows had is gone once they sit in a table
+    return env, rows
+
+
+def run_processed(shape, tier):
+    from lsst.daf.relation import RelationalAlgebraError
+
+    prog = shape["prog"]
+    info = {}
+    cache = {}
+
+    def h(ctx):
+        env, _ = _processed_env(ctx, shape)
+        templates.declare(ctx, env, shape["params"], shape["cons"])
+        try:
+            tree, out, ex, got = _processed(prog, env)
+        except RelationalAlgebraError as e:
+            raise Skip(f"rejected at construction: {type(e).__name__}")
+        except sqlmodel.OutsideModel as e:
+            raise Skip(f"outside SQL model: {e}")
+        except Exception as e:  # noqa: BLE001
+            return [("processed tree compiles", False, {"exc": f"{type(e).__name__}: {e}"[:160]})]
+        info.setdefault("tree", str(out))
+        info.setdefault("sql", str(ex)[:300])
+        if "ref" not in cache:
+            cache["ref"] = sem_seq(prog, env, prefer="r")
+        ref = cache["ref"]
+        if ref.ordered and ref.det and _trailing_ok(prog):
+            if not got.ordered:
+                # no outer ORDER BY (sort > slice > deduplicate): SQL promises no order, which is neither agreement nor a
+                # counterexample (DESIGN 3/C11); the rows themselves are still decided
+                info["unspecified"] = True
+                return [("rows (multiset; order unspecified by SQL)", relmodel.mset_eq(relmodel.unordered(got), relmodel.unordered(ref)), {})]
+            return [("rows in order (processed tree)", relmodel.seq_eq(got, ref), {})]
+        return [("rows of the windows (processed tree, multiset)", relmodel.mset_eq(relmodel.unordered(got), relmodel.unordered(ref)), {})]
+
+    res = explore(h, max_paths=600, wall_s=150 if tier == "quick" else 900)
+    out = res.as_dict()
+    out["shape"] = "processed: " + fmt(prog)
+    out["sample"] = {"program (compiled after Processor.process)": fmt(prog), "processed tree": info.get("tree"), "sql": info.get("sql"),
+                     "rows in the transferred leaf": shape["n"], "paths": res.paths, "kind": "processed"}
+    vios = []
+    for cx in res.cex[:1]:
+        m = cx["model"]
+        bind = templates.bind_concrete(shape["params"], m)
+        fails, symptom, detail = processed_check(shape, m, bind)
+        if not fails:
+            out["status"] = "harness-error"
+            out["detail"] = f"counterexample does not reproduce: processed {fmt(prog)} {bind} [{cx['label']}] {cx['info']}"
+            return out
+        vios.append({"site": f"processed:{'>'.join(ops_of(prog))}/{symptom}", "summary": f"processed {fmt(prog)} bind={bind}: {symptom} {detail}",
+                     "replay": {"processed": True, "shape": {"prog": to_jsonable(prog), "n": shape["n"]}, "model": {k: v for k, v in m.items() if k.startswith("P.")},
+                                "bind": bind, "symptom": symptom}})
+    if vios:
+        out["status"], out["violations"] = VIOLATION, vios
+    elif res.inconclusive or not res.complete:
+        out["status"], out["detail"] = INCONCLUSIVE, "; ".join(res.notes)[:100]
+    elif res.skipped and not res.obligations:
+        out["status"], out["detail"] = UNDECIDED, res.skipped
+    elif info.get("unspecified"):
+        out["status"], out["detail"] = UNDECIDED, "order unspecified by SQL (no outer ORDER BY); rows agree as a multiset"
+    else:
+        out["status"] = HOLDS
+    return out
+
+
+def processed_check(shape, model, bind):
+    """The same pipeline with ordinary ints (the SQL side is the SMT model on ground tables, validated against SQLite by the
+    other families of this check); the Processor, the factories and the compiler are the real code."""
+    from lsst.daf.relation import RelationalAlgebraError
+
+    prog = shape["prog"]
+    env, rows = _processed_env(None, shape, model)
+    env.bind = dict(bind)
+    try:
+        tree, out, ex, got = _processed(prog, env)
+    except RelationalAlgebraError:
+        return False, "rejected", None
+    except Exception as e:  # noqa: BLE001
+        return True, f"processed-tree-fails:{type(e).__name__}", str(e)[:140]
+    if not sqlprogs.determinate_env(prog, env):
+        return False, "indeterminate", None
+    exp = pyeval(prog, {"P": rows}, bind, env.tags, prefer="r")
+    obs = sqlprogs.model_rows(got)
+    if _trailing_ok(prog):
+        if not got.ordered:
+            if common.canon(obs) != common.canon(exp):
+                return True, "rows-differ", {"tree": str(out), "expected": exp, "observed": obs, "sql": str(ex)[:200]}
+            return False, "order-unspecified", None
+        if obs != exp:
+            return True, "order-differs" if common.canon(obs) == common.canon(exp) else "rows-differ", {"tree": str(out), "expected": exp, "observed": obs, "sql": str(ex)[:200]}
+    elif common.canon(obs) != common.canon(exp):
+        return True, "rows-differ", {"tree": str(out), "expected": exp, "observed": obs, "sql": str(ex)[:200]}
+    return False, "", None
+
+
 def concrete_check(prog, rows, bind):
     """Real compile + real SQLite under both scan orders vs the plain list evaluator (ordered)."""
     from lsst.daf.relation import RelationalAlgebraError
@@ -255,6 +378,10 @@ def concrete_check(prog, rows, bind):
 
 def replay(v):
     r = v["replay"]
+    if r.get("processed"):
+        shape = {"prog": from_jsonable(r["shape"]["prog"]), "n": r["shape"]["n"]}
+        fails, symptom, detail = processed_check(shape, r["model"], r["bind"])
+        return fails and symptom == r["symptom"], f"processed {fmt(shape['prog'])} bind={r['bind']}: {symptom} {detail}"
     prog = from_jsonable(r["prog"])
     fails, symptom, detail = concrete_check(prog, r["rows"], r["bind"])
     return fails and symptom == r["symptom"], f"{fmt(prog)} tables={r['rows']} bind={r['bind']}: {symptom} {detail}"
